@@ -3,7 +3,7 @@ C05 (source tie) — the hand-written model of `Routes::process_updates` (`KM.Ca
 Ca/Roa.lean: the fold of `removeStep` over the removals, then of `addStep` over the additions, then
 the all-or-nothing verdict) equals the definition that the translator `pure_fns` regenerates from
 `/repo/src/server/ca/roa.rs` on every run (`Generated/PureFnsC05.lean`,
-`KM.Gen.Routes.process_updates` with its two loops).
+`KM.Gen.C05.Routes.process_updates` with its two loops).
 
 `roa_delta_iff`, `roa_delta_errors_exact`, `roa_delta_all_or_nothing` (Props/C05.lean) are about
 `processUpdates`: removals first, each against the running copy; then every addition against the
@@ -27,7 +27,7 @@ open KM.Ca KM.Bgp KM.Input
 /-- The generated body with the model's operations plugged in. -/
 abbrev genPU (r : Routes) (held : Roa → Bool) (u : RoaUpdates) :
     Except DeltaError (Routes × List RouteEv) :=
-  KM.Gen.Routes.process_updates (Rt := Routes) (Ev := RouteEv) (Δ := DeltaError) (π := Roa) (κ := RoaConf)
+  KM.Gen.C05.Routes.process_updates (Rt := Routes) (Ev := RouteEv) (Δ := DeltaError) (π := Roa) (κ := RoaConf)
     (χ := String) (ε := DeltaError)
     r {} u.removed u.added Routes.has Routes.remove Routes.add Routes.updateComment Routes.get?
     (fun c => c.payload) (fun c => c.comment) maxLengthValid held
@@ -45,7 +45,7 @@ section
 variable (r : Routes) (held : Roa → Bool) (u : RoaUpdates)
 
 abbrev gLoop2 (e : DeltaError) (evs : List RouteEv) (d : Routes) (l : List RoaConf) :=
-  KM.Gen.Routes.process_updates.loop2 (Rt := Routes) (Ev := RouteEv) (Δ := DeltaError) (π := Roa) (κ := RoaConf)
+  KM.Gen.C05.Routes.process_updates.loop2 (Rt := Routes) (Ev := RouteEv) (Δ := DeltaError) (π := Roa) (κ := RoaConf)
     (χ := String) (ε := DeltaError)
     r {} u.removed u.added Routes.has Routes.remove Routes.add Routes.updateComment Routes.get?
     (fun c => c.payload) (fun c => c.comment) maxLengthValid held
@@ -56,7 +56,7 @@ abbrev gLoop2 (e : DeltaError) (evs : List RouteEv) (d : Routes) (l : List RoaCo
     DeltaError.isEmpty RouteEv.removed RouteEv.added RouteEv.comment id e evs d l
 
 abbrev gLoop (e : DeltaError) (evs : List RouteEv) (d : Routes) (l : List Roa) :=
-  KM.Gen.Routes.process_updates.loop (Rt := Routes) (Ev := RouteEv) (Δ := DeltaError) (π := Roa) (κ := RoaConf)
+  KM.Gen.C05.Routes.process_updates.loop (Rt := Routes) (Ev := RouteEv) (Δ := DeltaError) (π := Roa) (κ := RoaConf)
     (χ := String) (ε := DeltaError)
     r {} u.removed u.added Routes.has Routes.remove Routes.add Routes.updateComment Routes.get?
     (fun c => c.payload) (fun c => c.comment) maxLengthValid held
@@ -71,7 +71,7 @@ theorem loop2_cons (c : RoaConf) (t : List RoaConf) (acc : Acc) :
     gLoop2 r held u acc.errs acc.evs acc.desired (c :: t)
       = gLoop2 r held u (addStep held acc c).errs (addStep held acc c).evs (addStep held acc c).desired t := by
   unfold gLoop2
-  rw [KM.Gen.Routes.process_updates.loop2]
+  rw [KM.Gen.C05.Routes.process_updates.loop2]
   unfold addStep
   cases hv : maxLengthValid c.payload
   · simp [hv]
@@ -89,7 +89,7 @@ theorem loop2_eq (l : List RoaConf) (acc : Acc) :
     gLoop2 r held u acc.errs acc.evs acc.desired l = finish (l.foldl (addStep held) acc) := by
   induction l generalizing acc with
   | nil =>
-    unfold gLoop2 KM.Gen.Routes.process_updates.loop2 KM.Gen.Routes.process_updates.after2 finish
+    unfold gLoop2 KM.Gen.C05.Routes.process_updates.loop2 KM.Gen.C05.Routes.process_updates.after2 finish
     cases h : acc.errs.isEmpty <;> simp [h]
   | cons c t ih => rw [loop2_cons, ih, List.foldl_cons]
 
@@ -98,7 +98,7 @@ theorem loop_cons (p : Roa) (t : List Roa) (acc : Acc) :
     gLoop r held u acc.errs acc.evs acc.desired (p :: t)
       = gLoop r held u (removeStep acc p).errs (removeStep acc p).evs (removeStep acc p).desired t := by
   unfold gLoop
-  rw [KM.Gen.Routes.process_updates.loop]
+  rw [KM.Gen.C05.Routes.process_updates.loop]
   unfold removeStep
   cases hh : Routes.has acc.desired p <;> simp
 
@@ -108,7 +108,7 @@ theorem loop_eq (l : List Roa) (acc : Acc) :
       = finish (u.added.foldl (addStep held) (l.foldl removeStep acc)) := by
   induction l generalizing acc with
   | nil =>
-    unfold gLoop KM.Gen.Routes.process_updates.loop KM.Gen.Routes.process_updates.after
+    unfold gLoop KM.Gen.C05.Routes.process_updates.loop KM.Gen.C05.Routes.process_updates.after
     exact loop2_eq r held u u.added acc
   | cons p t ih => rw [loop_cons, ih, List.foldl_cons]
 
@@ -118,7 +118,7 @@ end
 for every configuration, every set of held resources and every delta. -/
 theorem gen_process_updates_eq_model (r : Routes) (held : Roa → Bool) (u : RoaUpdates) :
     genPU r held u = processUpdates r held u := by
-  unfold genPU KM.Gen.Routes.process_updates processUpdates
+  unfold genPU KM.Gen.C05.Routes.process_updates processUpdates
   have := loop_eq r held u u.removed { desired := r }
   simp only [gLoop] at this
   simp only [this, finish]
